@@ -27,6 +27,72 @@ import flowdyn.xnum as xnum                        # noqa: E402
 EPS = np.finfo(float).eps
 
 # ---------------------------------------------------------------------------
+# Other instances exist.  A user's process holds several models and discretisations at once; what one instance computes must not depend on
+# instances constructed after it (class-level or module-level shared state).  The module names below are proxies: every constructor call made
+# by the harness goes to the real flowdyn class and is then, for the first 60 constructions of a process and then one call in DECOY_EVERY, followed by the construction (and one use) of decoy
+# instances of every family with other parameters, before the object is handed back and used.
+_real = {"euler": euler, "shallow": shallow, "convection": convection, "burgers": burgers, "modeldisc": modeldisc}
+DECOY_EVERY = 25
+_decoy = {"n": 0, "busy": False}
+# replays run with full interference (decoys after every construction, default boundary arguments for every periodic discretisation): correct
+# code cannot tell, and a report that depended on where the counters stood when the explorer met the case is reproduced deterministically
+INTERFERENCE = {"all": False}
+
+
+def _make_decoys():
+    if _decoy["busy"]:
+        return
+    _decoy["n"] += 1
+    if not INTERFERENCE["all"] and _decoy["n"] > 60 and _decoy["n"] % DECOY_EVERY:      # always for the first constructions of a process
+        return
+    _decoy["busy"] = True
+    try:
+        with np.errstate(all="ignore"):
+            _real["euler"].euler1d(gamma=1.234)
+            _real["euler"].euler2d(gamma=1.876)
+            _real["euler"].nozzle(lambda x: 1.0 + 0.1 * x, gamma=1.11)
+            _real["shallow"].shallowwater1d(g=3.21)
+            _real["burgers"].model()
+            cm = _real["convection"].model(-7.7)
+            m = mesh1.unimesh(ncell=5, length=0.37, x0=2.2)
+            d = _real["modeldisc"].fvm(cm, m, xnum.extrapol2())                 # default (periodic) boundary arguments
+            d.rhs(field.fdata(cm, m, [np.array([0.3, -1.0, 2.0, 0.5, 0.1])]))
+            d.calc_timestep(field.fdata(cm, m, [np.ones(5)]), 0.77)
+            em = _real["euler"].euler1d(gamma=1.234)
+            d2 = _real["modeldisc"].fvm(em, mesh1.unimesh(ncell=4, length=3.1, x0=-0.9), xnum.muscl(xnum.vanleer), numflux="hllc",
+                                       bcL={"type": "sym"}, bcR={"type": "outsup"})
+            d2.rhs(field.fdata(em, d2.mesh, [np.array([1.0, 1.2, 0.9, 1.1]), np.array([0.1, -0.2, 0.3, 0.0]), np.array([2.5, 2.6, 2.4, 2.7])]))
+    finally:
+        _decoy["busy"] = False
+
+
+class _Proxy:
+    def __init__(self, mod, names):
+        self.__dict__["_mod"] = mod
+        self.__dict__["_names"] = names
+
+    def __getattr__(self, k):
+        obj = getattr(self._mod, k)
+        if k in self._names:
+            def ctor(*a, **kw):
+                o = obj(*a, **kw)
+                _make_decoys()
+                return o
+            ctor.__name__ = k
+            for attr in ("_numfluxdict", "_bcdict", "_vardict"):      # class-level registries are read by the harness through the proxy
+                if hasattr(obj, attr):
+                    setattr(ctor, attr, getattr(obj, attr))
+            return ctor
+        return obj
+
+
+euler = _Proxy(_real["euler"], {"euler1d", "euler2d", "nozzle", "model", "euler"})
+shallow = _Proxy(_real["shallow"], {"shallowwater1d"})
+convection = _Proxy(_real["convection"], {"model"})
+burgers = _Proxy(_real["burgers"], {"model"})
+modeldisc = _Proxy(_real["modeldisc"], {"fvm", "fvm1d", "fvm2d", "fvm2dcart"})
+
+# ---------------------------------------------------------------------------
 # integrators
 
 
@@ -174,10 +240,10 @@ LAW_MIRROR = {"const": "const", "parab": "parab", "bump": "bump_m", "bump_m": "b
 def fluxes(model):
     """registered numerical flux names of a model (None for models with a single built-in flux)"""
     d = getattr(model, "_numfluxdict", None)
-    if isinstance(model, euler.euler2d):
+    if isinstance(model, _real["euler"].euler2d):
         # the instance registry also inherits the 1D-only formulas of the base class (hllc, centeredmassflow),
         # which cannot take a face normal; the 2D fluxes are those registered by the 2D class itself
-        d = euler.euler2d._numfluxdict
+        d = _real["euler"].euler2d._numfluxdict
     names = sorted(d.dict.keys()) if d is not None else []
     return names if names else [None]
 
@@ -261,9 +327,17 @@ def bc_dict(spec):
     return d
 
 
+_build = {"n": 0}
+
+
 def build_1d(model_spec, flux, recon_name, mesh, bcl="per", bcr="per"):
     model = make_model(model_spec)
-    disc = modeldisc.fvm(model, mesh, recon(recon_name), numflux=flux, bcL=bc_dict(bcl), bcR=bc_dict(bcr))
+    _build["n"] += 1
+    if bcl == "per" and bcr == "per" and (_build["n"] % 2 or INTERFERENCE["all"]):
+        # periodic is the library's default: every other periodic discretisation is built the way most users do, without boundary arguments
+        disc = modeldisc.fvm(model, mesh, recon(recon_name), numflux=flux)
+    else:
+        disc = modeldisc.fvm(model, mesh, recon(recon_name), numflux=flux, bcL=bc_dict(bcl), bcR=bc_dict(bcr))
     return model, disc
 
 
